@@ -94,10 +94,35 @@ def build(kind, log, refs=None, coroutine=None):
             if self.objects > 40:
                 raise ValueError('document too complex')
             return obj
+    import decimal as _decimal
+    import pjrpc.server as _ps
+
+    class MoneyEncoder(_ps.JSONEncoder):
+        """the application's encoder: knows one more type than the library's"""
+        def default(self, o):
+            if isinstance(o, _decimal.Decimal):
+                return 'D:%s' % o
+            return super().default(o)
     s = Sys(kind, methods.STD_TABLE, coroutine_methods=coroutine, error_handlers={None: [h_generic], -32000: [h_server]},
-            middlewares=[mw_pass, mw_tag], json_decoder=BudgetDecoder)
+            middlewares=[mw_pass, mw_tag], json_decoder=BudgetDecoder, json_encoder=MoneyEncoder)
     d = s.d
     log = s.log
+
+    def price():
+        log.append(('price', {}))
+        return _decimal.Decimal('1.50')       # needs the configured encoder
+
+    def unenc():
+        log.append(('unenc', {}))
+        return {'handle': object()}           # a value no encoder knows: serialising the response fails
+    if coroutine:
+        def _co(f):
+            async def w():
+                return f()
+            return w
+        price, unenc = _co(price), _co(unenc)
+    d.add(price, name='price')
+    d.add(unenc, name='unenc')
     js = vjs.JsonSchemaValidator()
     pd = vpd.PydanticValidator()
 
@@ -244,6 +269,7 @@ ALPHABET = [
     ('fmt-strict-bad', call('jsfmt_strict', ['not-an-ip'])), ('fmt-strict-ok', call('jsfmt_strict', ['1.2.3.4'])),
     ('fmt-lenient', call('jsfmt_lenient', ['not-an-ip'])), ('pdv2', call('pdv2', ['s'])), ('pdv2fail', call('pdv2', {'a': 's', 'b': 'x'})),
     ('push', call('push', [1])), ('ping', call('ping')), ('whoami', call('whoami')), ('limits', call('limits')), ('page', call('page')), ('alive', call('alive')),
+    ('price', call('price')), ('unenc', call('unenc')),
     ('parse', '{"jsonrpc": "2.0", '), ('invalid', '{"jsonrpc":"2.0","id":1}'), ('boomt', call('boomt')),
 ]
 TEXT = dict(ALPHABET)
@@ -312,6 +338,9 @@ def run_retention(case, rec):
                 text = call('no_such_method_%d' % done, [done], id='id-%d' % done)
             elif req == 'VARYING-notif':
                 text = call('no_such_method_%d' % done, {'k%d' % done: done}, id=None)
+            elif req == 'VARYING-extension':
+                # a valid call carrying an extension member (ignored by the library), another id every time
+                text = '{"jsonrpc": "2.0", "method": "ok", "params": [%d], "id": "id-%d", "meta": {"trace": "t%d"}}' % (done, done, done)
             o = observe(s, text, context=c)
             del c, o
             done += 1
@@ -321,6 +350,36 @@ def run_retention(case, rec):
         alive_obj = sum(1 for r in refs if r() is not None)
         # the harness' own weak references are gc-tracked objects: not counted
         measures[N] = dict(ctx=alive_ctx, objs=alive_obj, caches=cache_sizes(), gc=len(gc.get_objects()) - len(ctx_refs) - len(refs))
+    # allocated memory (objects the garbage collector does not track - strings, tuples of strings - included): a further 1000 requests,
+    # nothing kept by the harness, measured with tracemalloc after a warm-up
+    import tracemalloc
+
+    def vary(k):
+        if req == 'VARYING-unknown':
+            return call('no_such_method_%d' % k, [k], id='id-%d' % k)
+        if req == 'VARYING-notif':
+            return call('no_such_method_%d' % k, {'k%d' % k: k}, id=None)
+        if req == 'VARYING-extension':
+            return '{"jsonrpc": "2.0", "method": "ok", "params": [%d], "id": "id-%d", "meta": {"trace": "t%d"}}' % (k, k, k)
+        return text
+    tracemalloc.start()
+    try:
+        for k in range(done, done + 200):
+            observe(s, vary(k), context=Ctx(k))
+            del refs[:]          # (the harness' own bookkeeping must not count)
+        gc.collect()
+        m1 = tracemalloc.get_traced_memory()[0]
+        for k in range(done + 200, done + 1200):
+            observe(s, vary(k), context=Ctx(k))
+            del refs[:]
+        gc.collect()
+        m2 = tracemalloc.get_traced_memory()[0]
+    finally:
+        tracemalloc.stop()
+    rec.counters['retention runs growing by more than 20 kB / 1000 requests (tolerance 40 kB)'] += 1 if m2 - m1 > 20000 else 0
+    if m2 - m1 > 40000:
+        rec.violation('C13:b:allocated memory grows with the number of requests (%s)' % ('view' if req.startswith('view') else req), case,
+                      expected='no growth over 1000 further requests (tolerance 40 kB)', observed='%d bytes' % (m2 - m1))
     last = measures[1110]
     what = 'view' if req.startswith('view') else req
     if last['ctx']:
@@ -654,7 +713,7 @@ def gen_cases(ctx):
     # (b)
     for kind in ('sync', 'async'):
         for req in ('ok', 'boom', 'nobind', 'view', 'viewfail', 'ctx', 'ctxinject', 'jsok', 'jsfail', 'pdok', 'pdfail', 'batch',
-                    'notif', 'unknown', 'vpd', 'vpdfail', 'vjs', 'vjsfail', 'fmt-strict-bad', 'pdv2', 'push', 'VARYING-unknown', 'VARYING-notif'):
+                    'notif', 'unknown', 'vpd', 'vpdfail', 'vjs', 'vjsfail', 'fmt-strict-bad', 'pdv2', 'push', 'VARYING-unknown', 'VARYING-notif', 'VARYING-extension'):
             yield dict(part='b', kind=kind, request=req)
     for req in ('batch', 'ctx', 'view', 'ok', 'pdok'):
         for steps in (1, 2, 3, 5):
@@ -742,7 +801,7 @@ def run(ctx):
     ctx.run_cases('C13', lambda: gen_cases(ctx), run_case, recheck_every=100003)
     c = ctx.rec.counters
     ctx.guard('threads really interleaved inside dispatch', c['thread schedules that interleaved inside dispatch'] > 100, dict(c))
-    ctx.guard('retention runs done', c['retention runs'] == 46, dict(c))
+    ctx.guard('retention runs done', c['retention runs'] == 48, dict(c))
 
 
 def replay(doc):
